@@ -65,14 +65,21 @@ func checkC09(c *vk.Ctx) {
 	p.W = map[string]int{"connect": 6, "subscribe": 4, "publish": 10, "disconnect": 4, "hold": 4, "ping": 1}
 	p.W["ackone"] = 5
 	p.W["failwrite"] = 3
-	// housekeeping sweeps of the in-flight store run between the steps (small virtual time steps, far from the session
-	// expiry of 300 s), in a third of the histories with the server's maximum message expiry switched off: a record of an
-	// exchange in progress (PUBREL after PUBREC) is not a message and must survive them
-	p.W["tick"] = 3
-	p.TickDelta = []int64{7, 13}
-	p.MaxMsgExp = []int64{0, 0, -1}
 	h := &histRun{Prop: "C09", Profile: p, N: c.N(400, 10000), Label: 9, Nontrivial: []string{"sessions_resumed"}}
 	h.run(c)
+	// second series: housekeeping sweeps of the in-flight store run between the steps (small virtual time steps, far
+	// from the session expiry of 300 s), in a third of the histories with the server's maximum message expiry switched
+	// off: a record of an exchange in progress (PUBREL after PUBREC) is not a message and must survive them. No client
+	// announces a Receive Maximum here: what the sweeps do to messages held back by flow control belongs to the recorded
+	// findings of the deferred-send machinery and is kept out of this series.
+	p2 := qosProfile()
+	p2.Name = "resume-sweep"
+	p2.RecvMax = []uint16{0}
+	p2.W = map[string]int{"connect": 6, "subscribe": 4, "publish": 10, "disconnect": 4, "hold": 4, "ping": 1, "ackone": 5, "failwrite": 3, "tick": 3}
+	p2.TickDelta = []int64{7, 13}
+	p2.MaxMsgExp = []int64{0, 0, -1}
+	h2 := &histRun{Prop: "C09", Profile: p2, N: c.N(200, 4000), Label: 902, Nontrivial: []string{"sessions_resumed"}}
+	h2.run(c)
 	// probe for the recorded finding: a message released from the flow-control queue is not redelivered
 	cfg := &hist.Config{MaxQoS: 2, RetainAvailable: true}
 	sub := []rc.SubFilter{{Filter: "t", Options: 1}}
